@@ -19,7 +19,7 @@ META = {
     ),
 }
 
-_RELAY_NOTE = 'Fake SRPC streams replace the RPC framework; identities come from NewServerWithIdentify; quiescence is detected from goroutine states; relay snapshots from the verif accessor; behaviours are sampled by TLC simulation (not exhaustive on the implementation); the exhaustive part is the design model in small scope (2 peers x 3-4 calls, or 3 calls + 2 listeners).'
+_RELAY_NOTE = 'Fake SRPC streams replace the RPC framework; identities come from NewServerWithIdentify; quiescence is detected from goroutine states; relay snapshots from the verif accessor; behaviours are sampled by TLC simulation (not exhaustive on the implementation); the exhaustive part is the design model in small scope (2 peers x 3-4 calls, or 3 calls + 2 listeners). C20 C22 C25 also replay RelaySlow.tla behaviours (a submission whose critical section is delayed past other stimuli, realised with a 96 MB message; a missed window is the other legal linearisation).'
 _RELAY_TECH = "TLC exhaustive model checking of SignalingRelay.tla; TLC-simulated behaviours replayed on the real relay; recorded traces validated by TLC (observer RelayMon.tla + strict RelayTrace.tla)"
 for _p, _t in {
     "C20": "ForwardAuthentic / NoFutureEpoch / NoStaleForward: every RecvMsg observed on a client stream is byte-identical to a message submitted with an authentic signature on the partner call in the server's current epoch; malicious requests (tampered, forged sender, foreign key, wrong context, future epoch, bad init) end the call with an error.",
@@ -145,7 +145,8 @@ for _p in ("C27", "C28", "C29"):
     REGISTRY[_p] = ("floodsub", "run")
 _FS_TECH = "TLC exhaustive model checking of FloodSub.tla (triangle, 4-ring); TLC-simulated behaviours on 7 topologies replayed on real FloodSub nodes over harness-mediated links; recorded traces (handler calls, wire taps) validated by TLC (FloodSubMon.tla)"
 _FS_NOTE = ("One channel; links are in-memory; the 100 ms sweep tick is waited out; message de-duplication races are exercised statistically (two streams at once), not by a scheduler gate. "
-            "Also: FloodSubDyn.tla (links that come up / streams re-opened while subscriptions change, five model mutants as directed scenarios) and PubSubPair.tla "
+            "Also: FloodSubDyn.tla (links that come up, streams that break / are re-opened / replaced while subscriptions change; eight model mutants as directed scenarios; with the hold-break mutant the history is the "
+            "full schedule of the loops' critical sections and is replayed in lockstep through the verif gate hook of the Execute loop), PubSubPair.tla / PubSubLine.tla "
             "(two complete real nodes with real pubsub controllers and a real link, driven through the BuildChannelSubscription directive).")
 META["C27"] = dict(technique=_FS_TECH, note=_FS_NOTE,
     text="DeliverAuthentic / NoForwardOfBad: in every behaviour a forged frame (foreign signature with claimed sender, tampered body, re-targeted channel, wrong context, empty channel, valid message for an unsubscribed channel) is injected on a link; "
